@@ -236,12 +236,21 @@ template <typename T> constexpr bool law_bounds_fp_strict() {
             if ((l.contains(x)) != (in && x < bound)) return false;
         }
     }
-    // gt(+inf) and lt(-inf) leave nothing
+    // gt(+inf) and lt(-inf) leave nothing; gt(-inf) and lt(+inf) remove exactly the infinity itself
     for (int i = 0; i < n; ++i) for (int j = i; j < n; ++j) {
-        range_t<T> g{vals[i], vals[j]}, l{vals[i], vals[j]};
+        T a = vals[i], b = vals[j];
+        range_t<T> g{a, b}, l{a, b}, g2{a, b}, l2{a, b};
         g.gt(inf);
         l.lt(-inf);
         if (!g.empty() || !l.empty()) return false;
+        g2.gt(-inf);
+        l2.lt(inf);
+        for (int k = 0; k < n; ++k) {
+            T x = vals[k];
+            bool in = a <= x && x <= b;
+            if (g2.contains(x) != (in && x > -inf)) return false;
+            if (l2.contains(x) != (in && x < inf)) return false;
+        }
     }
     return true;
 }
